@@ -26,6 +26,28 @@ def sh(cmd, **kw):
     return subprocess.run(cmd, stdout=subprocess.PIPE, stderr=subprocess.STDOUT, text=True, **kw)
 
 
+class PreserveGenerated:
+    """Checks regenerate lean/FunsorVerif/Gen/* and evidence/* from the tree they run against; when that tree
+    is a MUTANT the regenerated files must not survive.  Snapshot them before, restore them after."""
+    DIRS = [VERIF / "lean" / "FunsorVerif" / "Gen", VERIF / "evidence"]
+
+    def __enter__(self):
+        self.tmp = Path(f"/tmp/seedkeep_{os.getpid()}")
+        shutil.rmtree(self.tmp, ignore_errors=True)
+        for i, d in enumerate(self.DIRS):
+            if d.exists():
+                shutil.copytree(d, self.tmp / str(i))
+        return self
+
+    def __exit__(self, *a):
+        for i, d in enumerate(self.DIRS):
+            src = self.tmp / str(i)
+            if src.exists():
+                shutil.rmtree(d, ignore_errors=True)
+                shutil.copytree(src, d)
+        shutil.rmtree(self.tmp, ignore_errors=True)
+
+
 class Worktree:
     def __init__(self, tag):
         self.path = f"/tmp/seedrun_{tag}_{os.getpid()}"
@@ -81,7 +103,7 @@ def run(sid, props):
     meta = json.loads((d / "meta.json").read_text())
     props = props or [meta["property"]]
     results = meta.setdefault("checks", {})
-    with Worktree(sid) as wt:
+    with PreserveGenerated(), Worktree(sid) as wt:
         r = sh(["git", "-C", wt, "apply", str(d / "patch.diff")])
         if r.returncode:
             print("patch does not apply:", r.stdout)
@@ -146,7 +168,7 @@ def matrix(sids, props, jobs=6):
         d = SEEDED / sid
         meta = json.loads((d / "meta.json").read_text())
         results = meta.setdefault("checks", {})
-        with Worktree(sid) as wt:
+        with PreserveGenerated(), Worktree(sid) as wt:
             r = sh(["git", "-C", wt, "apply", str(d / "patch.diff")])
             if r.returncode:
                 print(sid, "patch does not apply:", r.stdout)
